@@ -55,14 +55,20 @@ def doNewline (st : St) : St :=
 
 def isAlpha (c : Char) : Bool := c.isAlpha   -- literal prefixes produced by repr are ASCII letters (b, u)
 
+/-- `len(s) > 0 and s[0].isalpha()` -/
+def startsAlpha (r : String) : Bool :=
+  match r.toList.head? with
+  | some c => isAlpha c
+  | none => false
+
 def step (sp : Spacing) (st : St) : Tok → St
   | .ident s => push (spaceIf st (sp.identifierAfter.contains st.prev)) s .identifier
   | .kw s =>
     push (spaceIf st (sp.keywordAfter.contains st.prev)) s (if sp.softKeywords.contains s then .softKeyword else .keyword)
   | .strLit r =>
-    push (spaceIf st ((match r.toList.head? with | some c => isAlpha c | none => false) && sp.stringAfter.contains st.prev)) r .nonNumberLiteral
+    push (spaceIf st (startsAlpha r && sp.stringAfter.contains st.prev)) r .nonNumberLiteral
   | .bytesLit r =>
-    push (spaceIf st ((match r.toList.head? with | some c => isAlpha c | none => false) && sp.bytesAfter.contains st.prev)) r .nonNumberLiteral
+    push (spaceIf st (startsAlpha r && sp.bytesAfter.contains st.prev)) r .nonNumberLiteral
   | .fstr s => push (spaceIf st (sp.fstringAfter.contains st.prev)) s .nonNumberLiteral
   | .delim s => push st s .delimiter
   | .op s => push st s .operator
@@ -85,16 +91,23 @@ def render (sp : Spacing) (ts : List Tok) : String :=
 
 /-! ### Number literals -/
 
-def hexDigits (n : Nat) : List Char := Nat.toDigits 16 n
-def decDigits (n : Nat) : List Char := Nat.toDigits 10 n
+/-- base-`b` digits, least significant first (`fuel` > n suffices). -/
+def digitsAux (b : Nat) : Nat → Nat → List Nat
+  | 0, _ => []
+  | f + 1, n => if n < b then [n] else (n % b) :: digitsAux b f (n / b)
+def digitsLE (b n : Nat) : List Nat := digitsAux b (n + 1) n
+def digitChar (d : Nat) : Char := if d < 10 then Char.ofNat (48 + d) else Char.ofNat (87 + d)
+def hexDigits (n : Nat) : List Char := (digitsLE 16 n).reverse.map digitChar
+def decDigits (n : Nat) : List Char := (digitsLE 10 n).reverse.map digitChar
 
 /-- `TokenPrinter.integer`: hexadecimal when strictly shorter than decimal. -/
-def intText (v : Int) : String :=
-  let (neg, n) := if v < 0 then (true, v.natAbs) else (false, v.natAbs)
+def natChars (n : Nat) : List Char :=
   let d := decDigits n
   let h := '0' :: 'x' :: hexDigits n
-  let body := if h.length < d.length then h else d
-  String.ofList (if neg then '-' :: body else body)
+  if h.length < d.length then h else d
+
+def intText (v : Int) : String :=
+  String.ofList (if v < 0 then '-' :: natChars v.natAbs else natChars v.natAbs)
 
 def startsWith (s p : List Char) : Bool := p.isPrefixOf s
 def endsWith (s p : List Char) : Bool := p.reverse.isPrefixOf s.reverse
